@@ -55,5 +55,6 @@ def inner_protocol(cap):
     """Instantiate the captured factory and return the GeminiServerProtocol it would serve with."""
     p = cap["factory"]()
     if cap["backend"] == "pyopenssl":
-        return p.inner_protocol_factory()
+        from vf import internal
+        return internal(p, "inner_protocol_factory")()
     return p
